@@ -95,7 +95,7 @@ def project(world=None):
         out_wf.append(dict(sid=sid, name=w[2], state=w[3], info=(w[4] or '')[:200], output=canon(_j(w[5])),
                            parent=tk_sid.get(w[6], '') if w[6] else '', root=wf_sid.get(w[7], sid) if w[7] else sid,
                            accepted=bool(w[11]), idx=(rc.get('index', 0) or 0), backlog=len(rc.get('backlog_commands', []) or []),
-                           ns=w[13] or '', env=canon(params.get('env')), project=w[14] or ''))
+                           ns=(params.get('namespace') if params.get('namespace') is not None else (w[13] or '')), env=canon(params.get('env')), project=w[14] or ''))
     out_tk = []
     for t in tks:
         sid = tk_sid.get(t[1])
